@@ -89,6 +89,7 @@ def generate(rng):
     scn['in_cap'] = rng.choice([4096, 4096, 64])
     scn['hup_write'] = rng.choice(['ok', 'ok', 'ok', 'eio'])
     scn['after_interact'] = rng.random() < 0.5
+    scn['out_kind'] = rng.choice(['digits', 'digits', 'bytes', 'utf8'])
     gen_eintr(rng, scn)
     return scn
 
@@ -155,7 +156,15 @@ def run(scn, prop=None):
                 elif st.get('dt'):
                     yield ('sleep', st['dt'])
                 n = st['n']
-                data = (('%06d|' % total) * (n // 7 + 1))[:n].encode()
+                ok = scn.get('out_kind', 'digits')
+                if ok == 'bytes':
+                    # every byte value, the escape character and the terminal's special characters included
+                    data = bytes((total + i * 37 + (i >> 8) * 11) & 0xff for i in range(n))
+                elif ok == 'utf8':
+                    unit = u'a\xe9\u20ac\U0001f600\n\x1d'.encode('utf-8')
+                    data = (unit * (n // len(unit) + 1))[total % len(unit):][:n]
+                else:
+                    data = (('%06d|' % total) * (n // 7 + 1))[:n].encode()
                 total += n
                 try:
                     yield ('write', slave, data)
